@@ -75,6 +75,21 @@ CLAIMED = {
         technique="TLA+ spec + TLC exhaustive problem-space enumeration, exact replay into the implementation",
         ref="5/C22",
     ),
+    "C21": dict(
+        level="fault_enumeration",
+        text="SolverRun.tla states the failure policy as a transition system over recorded events (Begin/Site/Warn/Accept/End) for all seven "
+             "solvers with their site sets and capability sets; TLC explores every fault plan up to the budget and checks NeverSilent, "
+             "OnlyConvergedRowsWithoutCWU, NoSilentIgnore, RowsMatch. On the real solvers every occurrence of every site seen in a fault-free "
+             "run (pairs under continue_with_unconverged) is forced to fail through the guarded hooks, plus provoked failures (non-finite "
+             "right-hand sides) and capability cases; every recorded run is validated by TLC against TraceSolverRun.tla, which names the "
+             "violated clause.",
+        note="3-step runs (4 load steps) of 1-2 body systems on 7 scenarios; the injected Newton failure runs fsolve's real non-convergence "
+             "path (budget of one iteration, unreachable tolerances). A warning counts for the step in whose window it is emitted; 'names the "
+             "time' means a number in its text equals the time of the last stored step. DualStormerVerlet has no gated site; Riks and the "
+             "consistent-initial-conditions loop assert (raise) and are not enumerated.",
+        technique="TLA+ policy spec model-checked over all fault plans + exhaustive fault injection with TLC trace validation",
+        ref="5/C21",
+    ),
 }
 
 NOT_APPLICABLE = {
